@@ -1070,6 +1070,12 @@ class FileStorage(
                 # operation doesn't block all other activity.
                 self._lock.release()
                 self._lock.acquire()
+                if us.file is not self._file:
+                    # A pack has replaced the file meanwhile (and closed
+                    # the one we were reading): the position we kept
+                    # means nothing in the new one.  Start again.
+                    us = UndoSearch(self._file, self._pos, first, last,
+                                    filter)
             return us.results
 
     def undo(self, transaction_id, transaction):
